@@ -109,31 +109,32 @@ def isolated(fn, timeout):
 
 
 def _run_chunk(args):
-    prop, seed, tier, indices, per_run_guard, sample_idx = args
+    prop, seed, tier, indices, per_run_guard, sample_idx, fn = args
     mod = get_module(prop)
+    run = getattr(mod, fn)
     out = []
     for idx in indices:
-        res = isolated(lambda: _slim(mod.run_one(seed, idx, tier, _PRISTINE), keep_trace=idx in sample_idx), per_run_guard)
+        res = isolated(lambda: _slim(run(seed, idx, tier, _PRISTINE), keep_trace=idx in sample_idx), per_run_guard)
         if "harness_error" in res:
             res = {"harness_error": f"run={idx}: " + res["harness_error"], "run": idx}
         out.append(res)
     return out
 
 
-def run_batch(prop, seed, tier, indices, workers=None, per_run_guard=120, chunk=8, sample_idx=()):
+def run_batch(prop, seed, tier, indices, workers=None, per_run_guard=120, chunk=8, sample_idx=(), fn="run_one"):
     workers = workers or int(os.environ.get("VERIF_WORKERS", "16"))
     chunks = [indices[i : i + chunk] for i in range(0, len(indices), chunk)]
     results = []
     if workers <= 1:
         _init_worker(prop)
         for c in chunks:
-            results += _run_chunk((prop, seed, tier, c, per_run_guard, set(sample_idx)))
+            results += _run_chunk((prop, seed, tier, c, per_run_guard, set(sample_idx), fn))
         if _PRISTINE is not None:
             _PRISTINE.close()
         return results
     ctx = mp.get_context("fork")
     with cf.ProcessPoolExecutor(max_workers=workers, mp_context=ctx, initializer=_init_worker, initargs=(prop,)) as ex:
-        futs = [ex.submit(_run_chunk, (prop, seed, tier, c, per_run_guard, set(sample_idx))) for c in chunks]
+        futs = [ex.submit(_run_chunk, (prop, seed, tier, c, per_run_guard, set(sample_idx), fn)) for c in chunks]
         for f in futs:
             try:
                 results += f.result(timeout=per_run_guard * chunk + 60)
